@@ -485,4 +485,13 @@ def rule_termination(ctx):
     ctx.floor("TERM", "schematic_rules", n, 10)
 
 
-RULES = [rule_det1, rule_det2, rule_det3, rule_fixpoint, rule_rw3, rule_termination, rule_loop_progress]
+def rule_fixpoint_strategy_shared(ctx):
+    """`--strategy fixpoint` promises a result no rule of the portfolio changes any more: the command handler must run apply_fixpoint for it
+    (and a single pass for the other strategies) - C07's strategy dispatch obligations"""
+    from . import c07
+    sub = type(ctx)(ctx.prop, ctx.tier, ctx.facts)
+    c07.rule_strategy(sub)
+    ctx.obls.extend(sub.obls)
+
+
+RULES = [rule_det1, rule_det2, rule_det3, rule_fixpoint, rule_rw3, rule_termination, rule_loop_progress, rule_fixpoint_strategy_shared]
